@@ -168,7 +168,7 @@ class Ctx:
             params, ressort, body = self.macros[name]
             ps = " ".join(f"({p} {S(s)})" for p, s in params)
             lines.append(f"(define-fun {name} ({ps}) {S(ressort)} {body})")
-        for name, sort in self.consts.items():
+        for name, sort in list(self.consts.items()):
             if used_consts is None or name in used_consts:
                 lines.append(f"(declare-const {name} {S(sort)})")
         return lines
@@ -177,6 +177,24 @@ class Ctx:
         """SMT-LIB text whose unsatisfiability proves  /\\ hyps => goal.  keep: optional predicate selecting hypotheses (dropping is sound)."""
         if keep is not None:
             hyps = [h for h in hyps if keep(h)]
+        # skolemise the goal:  H |- (A => forall x. B)   becomes   H, A |- B[x0]   (equivalent; makes the goal's spec-function
+        # applications ground, so that the definitional instances of the ground stage cover them)
+        hyps = list(hyps)
+        sk_consts = {}
+        for _ in range(8):
+            if goal.op == "=>" and len(goal.args) == 2:
+                hyps.append(goal.args[0])
+                goal = goal.args[1]
+            elif goal.op == "forall":
+                mapping = {}
+                for n, srt in goal.binders:
+                    # local to this VC text (vc_text runs concurrently: the shared declaration table is not touched)
+                    cname = "sk_" + n.replace("!", "_")
+                    mapping[n] = smt.Const(cname, srt)
+                    sk_consts[cname] = srt
+                goal = smt.substitute(goal.args[0], mapping)
+            else:
+                break
         body_terms = list(hyps) + [goal]
         axioms = list(self.axioms) if extra_axioms else []
         if extra_axioms == "light":
@@ -230,6 +248,8 @@ class Ctx:
         ab = smt.SeqAbstraction() if seq == "abstract" else None
         R = str if ab is None else ab.render
         lines = self.preamble(used, nl=nl, ab=ab)
+        for cname, srt in sk_consts.items():
+            lines.append(f"(declare-const {cname} {srt if ab is None else ab.sort(srt)})")
         body = []
         for name, t in axioms:
             body.append(f"; axiom {name}")
